@@ -160,7 +160,7 @@ func (iv *Value) ValueFrom(value any) {
 		}
 	default:
 		rv := reflect.ValueOf(value)
-		if rv.Kind() == reflect.Pointer {
+		for rv.Kind() == reflect.Pointer {
 			rv = rv.Elem()
 		}
 
